@@ -803,3 +803,162 @@ def _walk_shallow(stmt: ast.stmt):
                 todo.append(val)
             elif isinstance(val, list):
                 todo.extend(v for v in val if isinstance(v, ast.AST))
+
+
+# ------------------------------------------------------------------------------------------------------------ C08
+import json as _json
+import re as _re
+
+_SPECS = os.path.join(os.path.dirname(os.path.dirname(os.path.abspath(__file__))), "specs")
+
+
+def _resolve_strings(expr: ast.expr, fn: ast.FunctionDef, cls: ast.ClassDef, tree: ast.Module, depth: int = 0):
+    """the set of string constants an expression can evaluate to (None = cannot be resolved): constants; local names
+    assigned only constants; parameters resolved at every call site in the class; attributes of a dataclass record resolved
+    at every construction site of that dataclass in the module."""
+    if depth > 4:
+        return None
+    if isinstance(expr, ast.Constant) and isinstance(expr.value, str):
+        return {expr.value}
+    if isinstance(expr, ast.Name):
+        params = [a.arg for a in fn.args.posonlyargs + fn.args.args + fn.args.kwonlyargs]
+        stores = [n for n in ast.walk(fn) if isinstance(n, ast.Assign) and any(isinstance(t, ast.Name) and t.id == expr.id for t in n.targets)]
+        other = [n for n in ast.walk(fn) if isinstance(n, (ast.AugAssign, ast.AnnAssign, ast.For, ast.NamedExpr, ast.With))
+                 and any(isinstance(x, ast.Name) and x.id == expr.id and isinstance(x.ctx, ast.Store) for x in ast.walk(n))]
+        tuple_stores = [n for n in ast.walk(fn) if isinstance(n, ast.Assign)
+                        and any(isinstance(t, (ast.Tuple, ast.List)) and any(isinstance(e, ast.Name) and e.id == expr.id for e in t.elts) for t in n.targets)]
+        if other or tuple_stores:
+            return None
+        out = set()
+        for s_ in stores:
+            r = _resolve_strings(s_.value, fn, cls, tree, depth + 1)
+            if r is None:
+                return None
+            out |= r
+        if expr.id in params:
+            pos = params.index(expr.id) - (1 if params and params[0] in ("self", "cls") else 0)
+            sites = [c for m in cls.body if isinstance(m, ast.FunctionDef) for c in ast.walk(m)
+                     if isinstance(c, ast.Call) and isinstance(c.func, ast.Attribute) and c.func.attr in (fn.name, f"_{cls.name}{fn.name}")]
+            if not sites:
+                return None
+            for c in sites:
+                arg = next((k.value for k in c.keywords if k.arg == expr.id), None)
+                if arg is None and pos < len(c.args):
+                    arg = c.args[pos]
+                if arg is None:
+                    dflt = fn.args.defaults
+                    di = params.index(expr.id) - (len(params) - len(dflt))
+                    arg = dflt[di] if 0 <= di < len(dflt) else None
+                if arg is None:
+                    return None
+                caller = next(m for m in cls.body if isinstance(m, ast.FunctionDef) and any(x is c for x in ast.walk(m)))
+                r = _resolve_strings(arg, caller, cls, tree, depth + 1)
+                if r is None:
+                    return None
+                out |= r
+        return out or None
+    if isinstance(expr, ast.Attribute) and isinstance(expr.value, ast.Name):
+        # record.field: every construction site of a dataclass of the module that has this field
+        for dc in [n for n in tree.body if isinstance(n, ast.ClassDef)]:
+            fields = [b.target.id for b in dc.body if isinstance(b, ast.AnnAssign) and isinstance(b.target, ast.Name)]
+            if expr.attr not in fields:
+                continue
+            idx = fields.index(expr.attr)
+            out, found = set(), False
+            for m in ast.walk(tree):
+                if isinstance(m, ast.Call) and isinstance(m.func, ast.Name) and m.func.id == dc.name:
+                    found = True
+                    arg = next((k.value for k in m.keywords if k.arg == expr.attr), m.args[idx] if idx < len(m.args) else None)
+                    owner = next(((c2, f2) for c2 in tree.body if isinstance(c2, ast.ClassDef) for f2 in c2.body
+                                  if isinstance(f2, ast.FunctionDef) and any(x is m for x in ast.walk(f2))), None)
+                    if arg is None or owner is None:
+                        return None
+                    r = _resolve_strings(arg, owner[1], owner[0], tree, depth + 1)
+                    if r is None:
+                        return None
+                    out |= r
+            return out if found else None
+    return None
+
+
+@check("C08")
+def fix_vocabulary():
+    """Closure of the fix vocabulary: every (rule, token field) pair a rule can pass to register_fix_token_request -- the field
+    name resolved to its set of possible constants through locals, parameters (all call sites) and queued Fixer records (all
+    construction sites) -- is in the whitelist /verif/specs/fix_vocabulary.json (which rule may edit which field, and which of
+    those fields carry document text).  A rule that starts to edit a field outside its list (e.g. link_uri, or a text field
+    from a whitespace rule) fails.  One obligation per call site; replacement requests are allowed only for the listed rules."""
+    spec = _json.load(open(os.path.join(_SPECS, "fix_vocabulary.json")))
+    allowed, replacers = spec["fields"], set(spec["replace_tokens"])
+    out, seen_rules = [], set()
+    for rel, full in py_files("pymarkdown/plugins"):
+        tree = parse(full)
+        for cls in [n for n in tree.body if isinstance(n, ast.ClassDef)]:
+            for fn in [m for m in cls.body if isinstance(m, ast.FunctionDef)]:
+                for c in ast.walk(fn):
+                    if not (isinstance(c, ast.Call) and isinstance(c.func, ast.Attribute)):
+                        continue
+                    rule = os.path.basename(rel)[:-3]
+                    if c.func.attr == "register_replace_tokens_request":
+                        out.append({"name": f"structural::C08::fix_vocabulary[{rule}@{c.lineno}:replace]", "ok": rule in replacers,
+                                    "info": "token-range replacement only from the listed rules", "detail": f"{rel}:{c.lineno}"})
+                    if c.func.attr != "register_fix_token_request":
+                        continue
+                    seen_rules.add(rule)
+                    arg = next((k.value for k in c.keywords if k.arg == "field_name"), c.args[3] if len(c.args) > 3 else None)
+                    vals = _resolve_strings(arg, fn, cls, tree) if arg is not None else None
+                    if vals is None:
+                        out.append({"name": f"structural::C08::fix_vocabulary[{rule}@{c.lineno}]", "ok": False, "undecided": True,
+                                    "info": "field name of a fix request", "detail": f"cannot resolve `{ast.unparse(arg) if arg else '?'}` at {rel}:{c.lineno}"})
+                        continue
+                    extra = sorted(v for v in vals if v not in allowed.get(rule, []))
+                    out.append({"name": f"structural::C08::fix_vocabulary[{rule}@{c.lineno}]", "ok": not extra,
+                                "info": f"{rule} may only edit {allowed.get(rule, [])}",
+                                "detail": f"{rel}:{c.lineno} edits {sorted(vals)}; outside the whitelist: {extra}"})
+    missing = sorted(set(allowed) - seen_rules)
+    out.append({"name": "structural::C08::fix_vocabulary[coverage]", "ok": not missing and len(out) >= 40,
+                "info": "every whitelisted rule still issues fix requests (the whitelist is not stale)", "detail": f"rules without a request: {missing}; sites: {len(out)}"})
+    return out
+
+
+@check("C08")
+def regenerator_sentinels():
+    """Every character the Markdown regenerator deletes unconditionally from its output (the `.replace(c, "")` chain at the end
+    of TransformToMarkdown.transform) can never be document text: it must be one of the characters the parser escapes or
+    removes from document text (ParserHelper's escape / control characters).  Otherwise any token-level fix silently drops
+    that character from the user's document.  One obligation per deleted character."""
+    rel = "pymarkdown/transform_markdown/transform_to_markdown.py"
+    tree = parse(os.path.join(front.REPO_ROOT, rel))
+    deleted = []
+    for q, fn in enclosing_functions(tree):
+        if q != "TransformToMarkdown.transform":
+            continue
+        for c in ast.walk(fn):
+            if isinstance(c, ast.Call) and isinstance(c.func, ast.Attribute) and c.func.attr == "replace" and len(c.args) == 2 \
+                    and isinstance(c.args[1], ast.Constant) and c.args[1].value == "":
+                a0 = c.args[0]
+                if isinstance(a0, ast.Constant):
+                    deleted.append((a0.value, c.lineno))
+                elif isinstance(a0, ast.Attribute) and isinstance(a0.value, ast.Name) and a0.value.id == "ParserLogger":
+                    pl = parse(os.path.join(front.REPO_ROOT, "pymarkdown/general/parser_logger.py"))
+                    val = next((n.value.value for n in ast.walk(pl) if isinstance(n, ast.Assign) and isinstance(n.value, ast.Constant)
+                                and any(isinstance(t, ast.Name) and t.id == a0.attr for t in n.targets)), None)
+                    deleted.append((val if isinstance(val, str) else None, c.lineno))
+                else:
+                    deleted.append((None, c.lineno))
+    ph = parse(os.path.join(front.REPO_ROOT, "pymarkdown/general/parser_helper.py"))
+    reserved = set()
+    for n in ast.walk(ph):
+        if isinstance(n, ast.Assign) and isinstance(n.value, ast.Constant) and isinstance(n.value.value, str) and len(n.value.value) == 1 \
+                and any(isinstance(t, ast.Name) and _re.search(r"(backspace|alert|whitespace_split|replace_noop|blech|escape)_character$", t.id) for t in n.targets):
+            reserved.add(n.value.value)
+    out = []
+    for ch, line in deleted:
+        ok = ch is not None and all(x in reserved for x in ch)
+        shown = "non-literal" if ch is None else "+".join(f"U+{ord(x):04X}" for x in ch)
+        out.append({"name": f"structural::C08::sentinels[{shown}]", "ok": ok,
+                    "info": "a character deleted from every regenerated document is reserved by the parser (never document text)",
+                    "detail": f"{rel}:{line} deletes {shown}; reserved by ParserHelper: {sorted('U+%04X' % ord(x) for x in reserved)}"})
+    if not deleted:
+        out.append({"name": "structural::C08::sentinels[coverage]", "ok": True, "info": "the regenerator deletes no character unconditionally", "detail": ""})
+    return out
